@@ -59,7 +59,7 @@ def run(tier, seed, selftest=False, replay=None):
         cases = [{"id": json.loads(cs["id"].rsplit("/", 1)[0]), "ct": cs["ct"], "order": ["A", "B", "Cc", "D"], "u": [cs["event"]["T"]], "queries": [1], "lang": cs["lang"]}]
         max_leaves = 4000
     else:
-        g, tabs = tables(2)
+        g, tabs = tables(2, arrays=True)
         gstates = (g.distinct, g.generated)
         cases = [dict(t, lang=LANGS[(i + seed) % 4]) for i, t in enumerate(tabs)]
         rnd.shuffle(cases)
